@@ -14,7 +14,7 @@ def run(tier):
     for spec, nch in (("dep", 4), ("twice", 4), ("nested", 2)):
         env = {"H_SPEC": spec, "H_CHOICES": str(nch)}
         conds.append(Cond("h_generators.py", "fields_follow_generators", to, path_timeout=to / 2, env=env))
-        for which in range(3 if q else 6):
+        for which in range(2 if q else 6):
             conds.append(Cond("h_generators.py", "operators_respect_generators", to, twin="reach_ops" if which == 0 else None, path_timeout=to / 2,
                               env=dict(env, H_WHICH=str(which))))
     conds.append(Cond("h_generators.py", "stub_value_is_used", to, twin="reach_stub", path_timeout=to / 2, env={"H_SPEC": "stub", "H_CHOICES": "3"}))
@@ -26,7 +26,7 @@ def run(tier):
     run.bounds = {"specs": "4: generator with two distinct symbol arguments, generator mentioning one symbol twice, nested generated argument, "
                            "stub generator returning a symbolic string (len <= 2 over {0,1,a})",
                   "draws": "every random draw of Grammar.fuzz symbolic (values 0..2)", "operator": "replace() of ANY nonterminal node (sources included) by any "
-                           "same-symbol subtree of 3 other trees (first 3 candidates in quick tier, 6 in thorough)"}
+                           "same-symbol subtree of 3 other trees (first 2 candidates in quick tier, 6 in thorough)"}
     run.outside = ["random generators (random module inside generator code)", "crossover/mutation wrappers around replace() (they only choose the nodes)",
                    "specs with converters (inverse generators)", "longer operator histories"]
     run.assumptions = ["the harness re-implements each spec's generator in Python to recompute the expected text from the recorded .sources",
